@@ -46,8 +46,8 @@ func init() {
 			"badger batches are used once in-process (a second Write/Commit after Write or Reset panics in a goroutine the adapter spawns, which would kill the worker); the reuse pattern is exercised on badger in a child process instead",
 			"bolt auto-flushes a batch at 100000 ops and badger splits oversized batches: batch sizes here stay far below both",
 		},
-		QuickRuns: 1400, ThoroughRuns: 40000, QuickBudget: 55 * time.Second, ThoroughBudget: 15 * time.Minute,
-		Run: run, MaxProcs: 2, RunsPerProcess: 150, RunTimeout: 120 * time.Second,
+		QuickRuns: 1000, ThoroughRuns: 40000, QuickBudget: 55 * time.Second, ThoroughBudget: 15 * time.Minute,
+		Run: run, MaxProcs: 2, RunsPerProcess: 30, RunTimeout: 120 * time.Second,
 	})
 }
 
@@ -70,6 +70,7 @@ type backend struct {
 	bat        []dbm.Batch // aligned with sim.batches
 	batUsed    []bool      // handle has been written or Reset (badger: dead)
 	open       bool
+	wrote      bool // a write with a non-empty key reached the engine since it was opened
 }
 
 type bop struct {
@@ -101,6 +102,7 @@ type sim struct {
 	nBatch2, nIter2    int
 	childDone          bool
 	replayMode         bool
+	viewSeekLeft       int
 }
 
 const (
@@ -134,6 +136,7 @@ func run(c *kernel.Ctx) {
 	defer func() {
 		for _, b := range s.be {
 			if b.open {
+				s.beforeClose(b)
 				kernel.Try(func() { b.base.Close() })
 			}
 		}
@@ -157,6 +160,13 @@ func run(c *kernel.Ctx) {
 	}
 	w[0] += 4 // there is always something to read
 	w[3] += 2
+	if w[4]+w[5] > 0 { // a batch that can be opened can also be filled and finished
+		for _, i := range []int{4, 5, 6} {
+			if w[i] == 0 {
+				w[i] = base[i]
+			}
+		}
+	}
 	if s.shards > 1 || !s.cfg.Bool(1, 5) {
 		w[9] = 0 // the child-process scenario (badger batch reuse) runs in about one run in six
 	} else {
@@ -302,6 +312,9 @@ func (s *sim) configure() {
 	for i := t.Range(3, 8); i > 0; i-- {
 		s.pool = append(s.pool, s.freshKey(t))
 	}
+	if t.Bool(1, 3) {
+		s.viewSeekLeft = 1
+	}
 }
 
 func (s *sim) genViewPrefix(t *kernel.Tape) []byte {
@@ -368,6 +381,7 @@ func (s *sim) openOne(b *backend) bool {
 		return false
 	}
 	b.open = true
+	b.wrote = false
 	b.views = b.views[:0]
 	for _, v := range s.views {
 		var h dbm.DB = b.base
@@ -377,6 +391,29 @@ func (s *sim) openOne(b *backend) bool {
 		b.views = append(b.views, h)
 	}
 	return true
+}
+
+// beforeClose keeps the worker's memory bounded. BadgerDB starts a GC goroutine
+// per open that is never stopped and pins the badger.DB; badger's Close only
+// lets go of its 17 MB memtable arena if the memtable is not empty. A badger
+// instance that saw no write since it was opened therefore gets a sentinel key
+// (outside the generated key alphabet) written and deleted again before Close,
+// which leaves the ordered map as it was.
+func (s *sim) beforeClose(b *backend) {
+	if b.name != "badger" || b.wrote || !b.open {
+		return
+	}
+	n := 1
+	if s.shards > 1 {
+		n = 24
+	}
+	kernel.Try(func() {
+		for i := 0; i < n; i++ {
+			k := []byte(fmt.Sprintf("zz-verif-sentinel-%d", i))
+			b.base.Set(k, []byte("x"))
+			b.base.Delete(k)
+		}
+	})
 }
 
 func (b *backend) handle(tgt int) dbm.DB {
@@ -427,6 +464,7 @@ func (s *sim) reopenAll(why string) {
 		if b.persistent && !s.ft.Bool(3, 4) {
 			continue
 		}
+		s.beforeClose(b)
 		site, msg, p := kernel.Try(func() { b.handle(via).Close() })
 		if p {
 			if s.c.Violate("panic", "c19/"+s.scope(b)+"/Close/panic", "%s: Close panicked at %s: %s", b.name, site, msg) {
@@ -772,6 +810,7 @@ func (s *sim) opPut() {
 			}
 		})
 		b.m[string(full)] = v
+		b.wrote = b.wrote || len(full) > 0
 		if p {
 			pm[i] = "panic"
 			sites[i] = site + ": " + msg
@@ -814,6 +853,7 @@ func (s *sim) opDel() {
 			}
 		})
 		delete(b.m, string(full))
+		b.wrote = b.wrote || len(full) > 0
 		if p {
 			pm[i] = "panic"
 			sites[i] = site + ": " + msg
@@ -1068,6 +1108,7 @@ func (s *sim) opBatchEnd() {
 			}
 			for _, o := range bd.pending {
 				fk := string(s.full(bd.tgt, o.k))
+				b.wrote = b.wrote || len(fk) > 0
 				if o.del {
 					delete(b.m, fk)
 				} else {
